@@ -64,7 +64,14 @@ def build_pools(p):
                 s = re.sub(r"\(\\d\+\[\.,\]\?\\d\*\)", "3", pat)
                 if "\\" not in s and "(" not in s:
                     relre.append(s)
-        pools[L] = {"months": months, "days": days, "rel": rel[:12], "relre": relre[:10], "nws": "no_word_spacing" in info, "skip": [s for s in info.get("skip", []) if s.strip() and len(s) > 1][:6], "locales": list(locmap.get(L, []))[:4]}
+        regional = []
+        base_words = {w.lower() for ml in months for w in ml}
+        for loc, spec in (info.get("locale_specific") or {}).items():
+            for mi, k in enumerate(("january", "february", "march", "april", "may", "june", "july", "august", "september", "october", "november", "december")):
+                for w in spec.get(k, []) or []:
+                    if w and w.lower() not in base_words and not any(ch.isdigit() for ch in w):
+                        regional.append([loc, w, mi + 1])
+        pools[L] = {"regional": regional[:8], "months": months, "days": days, "rel": rel[:12], "relre": relre[:10], "nws": "no_word_spacing" in info, "skip": [s for s in info.get("skip", []) if s.strip() and len(s) > 1][:6], "locales": list(locmap.get(L, []))[:4]}
     return {"order": list(languages_info.language_order), "langs": pools}
 
 
@@ -116,9 +123,9 @@ def draw_settings(rng, langs):
         elif k in ("PREFER_DAY_OF_MONTH", "PREFER_MONTH_OF_YEAR"):
             s[k] = rng.choice(["first", "last", "current"])
         elif k == "TIMEZONE":
-            s[k] = rng.choice(["UTC", "Asia/Tokyo", "America/New_York", "EST", "local"])
+            s[k] = rng.choice(["UTC", "Asia/Tokyo", "America/New_York", "EST", "local", "CET", "EET"])
         elif k == "TO_TIMEZONE":
-            s[k] = rng.choice(["UTC", "Europe/London", "Asia/Kolkata", "PST"])
+            s[k] = rng.choice(["UTC", "Europe/London", "Asia/Kolkata", "PST", "CET", "EET"])  # CET/EET: a DST zone for pytz, a fixed offset in the library's table
         elif k == "REQUIRE_PARTS":
             s[k] = rng.choice([["day"], ["month"], ["year"], ["day", "month"], ["month", "year"]])
     return s
@@ -189,6 +196,10 @@ FAILING = [
     {"op": "parse", "s": "12 March 2015", "kw": {"locales": ["fr-FR", "fr-BE"]}},
     {"op": "parse", "s": "12 March 2015", "kw": {"locales": ["zz-ZZ"]}},
     {"op": "parse", "s": 12345, "kw": {}},
+    {"op": "parse", "s": 20200102, "kw": {"settings": {"DATE_ORDER": "DMY"}}},
+    {"op": "parse", "s": "01/02/2020", "kw": {"date_formats": "%d/%m", "settings": {"DATE_ORDER": "DMY"}}},
+    {"op": "parse", "s": "01/02/2020", "kw": {"settings": {"TIMEZONE": "Nowhere/Land", "DATE_ORDER": "DMY"}}},
+    {"op": "search", "text": 20200102, "kw": {"languages": ["ru"]}},
     {"op": "parse", "s": None, "kw": {"languages": ["en"]}},
     {"op": "parse", "s": "9999-12-31 23:59 -0500", "kw": {"settings": {"TIMEZONE": "UTC"}}},
     {"op": "parse", "s": "9999-12-31 23:59 -0500", "kw": {"languages": ["fr", "tl"], "settings": {"TIMEZONE": "UTC"}}},
@@ -223,7 +234,7 @@ def gen_history(rng, pools, tier):
     if rng.random() < 0.45:
         # contrast mode: the variants differ in exactly one of the keys the shared state is (or
         # should be) keyed by, the same strings recur under each variant, few languages
-        focus = rng.choice(["SKIP_TOKENS", "SKIP_TOKENS", "NORMALIZE", "DATE_ORDER", "PREFER_LOCALE_DATE_ORDER", "DEFAULT_LANGUAGES", "PARSERS", "CACHE_SIZE_LIMIT", "STRICT_PARSING", "PREFER_DATES_FROM", "RELATIVE_BASE", "RELATIVE_BASE", "TIMEZONE", "PREFER_DAY_OF_MONTH"])
+        focus = rng.choice(["SKIP_TOKENS", "SKIP_TOKENS", "NORMALIZE", "DATE_ORDER", "PREFER_LOCALE_DATE_ORDER", "DEFAULT_LANGUAGES", "PARSERS", "CACHE_SIZE_LIMIT", "STRICT_PARSING", "PREFER_DATES_FROM", "RELATIVE_BASE", "RELATIVE_BASE", "TIMEZONE", "TO_TIMEZONE", "PREFER_DAY_OF_MONTH"])
         langs = langs[: rng.choice([1, 1, 2])]
         if focus in ("DATE_ORDER", "PREFER_LOCALE_DATE_ORDER") and rng.random() < 0.5 and "tl" not in langs:
             langs = (["tl"] + langs)[:2]  # the only language without a date order of its own
@@ -235,7 +246,7 @@ def gen_history(rng, pools, tier):
             "DEFAULT_LANGUAGES": [[l] for l in (langs + ["en", "fr"])[:3]], "PARSERS": PARSER_SETS, "CACHE_SIZE_LIMIT": CACHE_LIMITS, "STRICT_PARSING": [True, False],
             "PREFER_DATES_FROM": ["past", "future", "current_period"],
             "RELATIVE_BASE": [{"__dt__": [rng.randrange(1990, 2035), rng.randrange(1, 13), rng.randrange(1, 29), rng.randrange(24), rng.randrange(60), 0, 0], "tz": None} for _ in range(3)],
-            "TIMEZONE": ["UTC", "Asia/Tokyo", "America/New_York", "local"], "PREFER_DAY_OF_MONTH": ["first", "last", "current"],
+            "TIMEZONE": ["UTC", "Asia/Tokyo", "America/New_York", "local", "CET", "EET"], "TO_TIMEZONE": ["UTC", "CET", "EET", "Asia/Kolkata"], "PREFER_DAY_OF_MONTH": ["first", "last", "current"],
         }[focus]
         picks = rng.sample(vals, min(len(vals), rng.choice([2, 2, 3])))
         variants = [None if not base else dict(base)] + [dict(base, **{focus: copy.deepcopy(v)}) for v in picks]
@@ -293,6 +304,20 @@ def gen_history(rng, pools, tier):
                 slots[nslot] = {"languages": [L2], "settings": copy.deepcopy(var)}
                 ops.append({"op": "new_parser", "slot": nslot, "kw": slots[nslot], "clock_us": clock()})
             ops.append({"op": "get_date_data", "slot": 1, "ctor": slots[1], "s": refdep, "clock_us": clock()})
+        elif tmpl < 0.135 and any((pools["langs"].get(l) or {}).get("regional") for l in pools["order"][:60]):
+            # T6 a regional variant's own vocabulary must not leak into the base language (or a sibling
+            # locale) loaded in the same process, whichever of them is used first
+            cands = [l for l in pools["order"] if (pools["langs"].get(l) or {}).get("regional")]
+            Lr = rng.choice(cands)
+            loc, word, mi = rng.choice(pools["langs"][Lr]["regional"])
+            sreg = "%d %s %d" % (rng.randrange(1, 29), word, rng.randrange(2000, 2030))
+            reg_call = {"op": "parse", "s": sreg, "kw": {"locales": [loc]}, "clock_us": clock()}
+            if rng.random() < 0.4 and loc.count("-") == 1:
+                reg_call = {"op": "parse", "s": sreg, "kw": {"languages": [Lr], "region": loc.split("-")[1]}, "clock_us": clock()}
+            base_call = {"op": rng.choice(["parse", "parse", "search"]), "s": sreg, "text": "xyz " + sreg, "kw": {"languages": [Lr]}, "clock_us": clock()}
+            base_call.pop("text" if base_call["op"] == "parse" else "s")
+            seq = [reg_call, base_call] if rng.random() < 0.7 else [base_call, reg_call, copy.deepcopy(base_call)]
+            ops.extend(seq)
         elif tmpl < 0.15:
             # T5 'tl' is the only language without a date order of its own: whatever order applies to it must
             # come from the call's own settings, never from whoever parsed Tagalog first in this process
